@@ -512,44 +512,45 @@ class ScriptMem:
         return self.mem.get(a, self.initword(a))
 
     def process(self):
+        """at its c-th execution a generator observes cycle c and drives cycle c + 1 (same convention as IdealMem/recorder)"""
         port, q, pulse, ready, c = self.port, [], None, 0, 0
         while True:
-            # observe cycle c - 1
-            if c > 0:
-                t = c - 1
-                if (yield port.cmd.valid) and ready:
-                    we, a = (yield port.cmd.we), (yield port.cmd.addr)
-                    self.events.append((t, 1, 0, dict(c="CMD", we=bool(we), a=a, t=t)))
-                    q.append([bool(we), a, t])
-                    self.outstanding += 1
-                if pulse is not None:
-                    we, a, _ = pulse
-                    if we:
-                        if (yield port.wdata.valid):
-                            d, m, old = (yield port.wdata.data), (yield port.wdata.we), self.read(a)
-                            for j in range(self.nb):
-                                if (m >> j) & 1:
-                                    old = (old & ~(0xff << (8 * j))) | (d & (0xff << (8 * j)))
-                            self.mem[a] = old
-                            self.events.append((t, 2, 0, dict(c="WDATA", d=tobytes(d, self.nb), m=[(m >> j) & 1 for j in range(self.nb)], t=t)))
-                        else:
-                            self.events.append((t, 2, 0, dict(c="WDROP", t=t)))
+            # observe cycle c
+            t = c
+            if (yield port.cmd.valid) and ready:
+                we, a = (yield port.cmd.we), (yield port.cmd.addr)
+                self.events.append((t, 1, 0, dict(c="CMD", we=bool(we), a=a, t=t)))
+                q.append([bool(we), a, t])
+                self.outstanding += 1
+            if pulse is not None:
+                we, a = pulse[0], pulse[1]
+                if we:
+                    if (yield port.wdata.valid):
+                        d, m, old = (yield port.wdata.data), (yield port.wdata.we), self.read(a)
+                        for j in range(self.nb):
+                            if (m >> j) & 1:
+                                old = (old & ~(0xff << (8 * j))) | (d & (0xff << (8 * j)))
+                        self.mem[a] = old
+                        self.events.append((t, 2, 0, dict(c="WDATA", d=tobytes(d, self.nb), m=[(m >> j) & 1 for j in range(self.nb)], t=t)))
                     else:
-                        if (yield port.rdata.ready):
-                            self.events.append((t, 3, 0, dict(c="RDATA", d=tobytes(pulse[3], self.nb), t=t)))
-                        else:
-                            self.events.append((t, 3, 0, dict(c="RDROP", t=t)))
-                    pulse = None
-                    self.outstanding -= 1
-            # drive cycle c
-            want = self.pulse[c] if c < len(self.pulse) else 1
-            if want and q and c - q[0][2] >= self.lmin:
+                        self.events.append((t, 2, 0, dict(c="WDROP", t=t)))
+                else:
+                    if (yield port.rdata.ready):
+                        self.events.append((t, 3, 0, dict(c="RDATA", d=tobytes(pulse[3], self.nb), t=t)))
+                    else:
+                        self.events.append((t, 3, 0, dict(c="RDROP", t=t)))
+                pulse = None
+                self.outstanding -= 1
+            # drive cycle c + 1
+            n = c + 1
+            want = self.pulse[n] if n < len(self.pulse) else 1
+            if want and q and n - q[0][2] >= self.lmin:
                 pulse = q.pop(0)
                 if not pulse[0]:
                     pulse = pulse + [self.read(pulse[1])]
-            elif want and c < len(self.pulse):
+            elif want and q and n < len(self.pulse):      # the model strobed a command the code has not issued that early
                 self.skipped += 1
-            ready = self.cmdrdy[c] if c < len(self.cmdrdy) else 1
+            ready = self.cmdrdy[n] if n < len(self.cmdrdy) else 1
             yield port.cmd.ready.eq(ready)
             yield port.wdata.ready.eq(int(pulse is not None and pulse[0]))
             yield port.rdata.valid.eq(int(pulse is not None and not pulse[0]))
@@ -578,7 +579,7 @@ class ScriptRun(AxiRun):
     def aw_proc(self):
         axi, c = self.axi, 0
         for k, w in enumerate(self.prog["writes"]):
-            while c < w["at"]:
+            while c < w["at"] - 1:          # a write issued at the c-th execution is seen in cycle c + 1
                 c += 1
                 yield
             yield axi.aw.valid.eq(1); yield axi.aw.addr.eq(w["addr"]); yield axi.aw.burst.eq(w["burst"])
@@ -598,7 +599,7 @@ class ScriptRun(AxiRun):
         axi, c = self.axi, 0
         for k, w in enumerate(self.prog["writes"]):
             for i, (d, s) in enumerate(zip(w["data"], w["strb"])):
-                while c < w["wat"][i]:
+                while c < w["wat"][i] - 1:
                     c += 1
                     yield
                 yield axi.w.valid.eq(1); yield axi.w.data.eq(d); yield axi.w.strb.eq(s); yield axi.w.last.eq(int(i == w["len"]))
@@ -615,7 +616,7 @@ class ScriptRun(AxiRun):
     def ar_proc(self):
         axi, c = self.axi, 0
         for k, r in enumerate(self.prog["reads"]):
-            while c < r["at"]:
+            while c < r["at"] - 1:
                 c += 1
                 yield
             yield axi.ar.valid.eq(1); yield axi.ar.addr.eq(r["addr"]); yield axi.ar.burst.eq(r["burst"])
@@ -633,7 +634,7 @@ class ScriptRun(AxiRun):
     def ready_proc(self, ch, gen):
         bits, c = gen.spec[1], 0
         while True:
-            yield ch.ready.eq(bits[c] if c < len(bits) else 1)
+            yield ch.ready.eq(bits[c + 1] if c + 1 < len(bits) else 1)
             c += 1
             yield
 
